@@ -110,10 +110,13 @@ impl Iterator for QueryIterator {
                     author_filter,
                     selector,
                 } => loop {
-                    // get the next entry from the query range, filtered by the author filter
-                    let next = range
-                        .next_filtered(&self.query.sort_direction, |(_ns, _key, author)| {
-                            author_filter.matches(&(AuthorId::from(author)))
+                    // get the next entry from the query range. without a selector the author
+                    // filter applies to every row; with one it applies to the entry selected
+                    // for a key, i.e. *after* the grouping (see the note on `Query`).
+                    let grouped = selector.is_some();
+                    let next =
+                        range.next_filtered(&self.query.sort_direction, |(_ns, _key, author)| {
+                            grouped || author_filter.matches(&(AuthorId::from(author)))
                         });
 
                     // early-break if next contains Err
@@ -132,6 +135,12 @@ impl Iterator for QueryIterator {
                             SelectorRes::Some(res) => Some(res),
                         },
                     };
+
+                    // the latest entry of a key was selected among all authors: now apply the
+                    // author filter to it
+                    if grouped && matches!(&next, Some(e) if !author_filter.matches(&e.author())) {
+                        continue;
+                    }
 
                     // skip the entry if empty and no empty entries requested
                     if !self.query.include_empty && matches!(&next, Some(e) if e.is_empty()) {
